@@ -1,0 +1,49 @@
+// Copyright 2026 Dolthub, Inc.
+//
+// Licensed under the Apache License, Version 2.0 (the "License");
+// you may not use this file except in compliance with the License.
+// You may obtain a copy of the License at
+//
+//     http://www.apache.org/licenses/LICENSE-2.0
+//
+// Unless required by applicable law or agreed to in writing, software
+// distributed under the License is distributed on an "AS IS" BASIS,
+// WITHOUT WARRANTIES OR CONDITIONS OF ANY KIND, either express or implied.
+// See the License for the specific language governing permissions and
+// limitations under the License.
+
+//go:build verif
+
+package doltdb
+
+// Machine-checked contracts for /verif (comment-only; see /verif/DESIGN.md §2.2).
+
+// ---- ancestor specs (C44)
+
+// strings.IndexByte: first occurrence (package documentation)
+//@ extern strings.IndexByte as verif_x_strings_IndexByte
+//@   ensures idx == -1 ==> forall k in 0..len(s): s[k] != c
+//@   ensures idx != -1 ==> 0 <= idx && idx < len(s) && s[idx] == c
+//@   ensures idx != -1 ==> forall k in 0..idx: s[k] != c
+//@   modifies nothing
+
+// strconv.Atoi of a string of decimal digits (the only strings parseInstructions passes): non-negative on success
+//@ extern strconv.Atoi as verif_x_strconv_Atoi
+//@   ensures err == nil ==> n >= 0
+//@   modifies nothing
+
+// SplitAncestorSpec: the base name ends before the first ancestor operator
+//@ func SplitAncestorSpec
+//@   property C44
+//@   ensures  result2 == nil ==> forall k in 0..len(result0): result0[k] != '^' && result0[k] != '~'
+
+// parseInstructions: never panics; each '~n' appends one instruction per step, starting with none
+//@ func parseInstructions
+//@   property C44
+//@   nopanic
+//@   loop 1
+//@     invariant 0 <= i && i <= len(aSpec)
+//@   loop 2
+//@     invariant 0 <= i && i < len(aSpec) && start <= i
+//@   loop 3
+//@     invariant 0 <= j && len(instructions) == loopold(len(instructions)) + j
